@@ -21,7 +21,11 @@ Obligations generated from the real source on every run (DESIGN §3 C04):
      nothing on instances whose fields hold values of their declared types, and the text accessors return str;
  (g) metadata readers copy each documented property (title, creator, subject, keywords, description) unchanged from the
      node that stores it (c04_meta: dataflow postcondition per reader and property).
-A bounded native sweep (all fixtures, every accessor) validates the assumed models; it is never counted as a proof.
+ (h) isolation: the object whose path fields populate_from_path() fills belongs to this extraction (no module-level object, mutable
+     default, cached result flows into it: c04_flow.SharedSources), decided natively by three extractions in one process;
+ (i) DT-TYPED at the source: no recognised source of None reaches an int / str / bytes field at an image constructor.
+BOUNDED (never counted as proved): the native sweep (all fixtures, every accessor, repeated extractions) and the small-scope
+enumeration of hand-built content objects for iterate_units / get_full_text / iterate_images / iterate_tables.
 """
 import ast
 
